@@ -15,9 +15,11 @@ CONSTANTS
   WithFail = TRUE
   WithInflight = TRUE
   WithSwap = TRUE
+  WithOvertake = TRUE
   WithRestart = TRUE
   AlterDbChecked = FALSE
   AlterIdxRecheck = FALSE
   DropGuarded = FALSE
   CreateFromDrop = TRUE
+  ProbeAfterDrop = TRUE
   TabT = {0, 1, 2, 3}
